@@ -1477,7 +1477,10 @@ def run(ctx) -> None:
         corr_strings = pathfs.grammar(3) if quick else pathfs.grammar(4)
         staged('corr_standard', lambda: corr_paths(ctx, corr_strings))
         staged('corr_acyclic', lambda: corr_paths(ctx, pathfs.grammar(2 if quick else 3, pathfs.ACYCLIC_COMPONENTS), arrangement="acyclic"))
-        staged('corr_filelink', lambda: corr_paths(ctx, pathfs.grammar(2 if quick else 3, pathfs.FILELINK_COMPONENTS), arrangement="filelink"))
+        fl_strings = pathfs.grammar(2, pathfs.FILELINK_COMPONENTS)
+        if not quick:                                      # depth 2 exhaustive + a seeded sample of depth 3
+            fl_strings = fl_strings + ctx.rng.sample(pathfs.grammar(3, pathfs.FILELINK_COMPONENTS), 1200)
+        staged('corr_filelink', lambda: corr_paths(ctx, fl_strings, arrangement="filelink"))
         staged('corr_history', lambda: corr_history(ctx))
         staged('corr_sessions', lambda: corr_sessions(ctx))
         staged('corr_s3_keys', lambda: corr_s3_keys(ctx))
